@@ -25,7 +25,7 @@ from ..ref import pattern as RP
 PID = "C08"
 RULE = (
     "patterns: every (class spec) x (0, 1 or 2 field specs) from the generated field-spec families, well-formed only; nodes: a "
-    "fixed pool of 22 nodes; every (pattern, node) pair is matched.  history: all ordered pairs (thorough: plus triples over 12) "
+    "fixed pool of 25 nodes; every (pattern, node) pair is matched.  history: all ordered pairs (thorough: plus triples over 12) "
     "of a core pattern set compiled with the cache kept / cleared between / cleared after, then matched; MultiPatternMatcher over "
     "every ordered list of <= 3 core patterns, default and explicit rule order.  states = distinct pattern texts; transitions = "
     "match calls compared with the reference; non-trivial = patterns that match at least one pool node and fail at least one"
@@ -79,7 +79,7 @@ def pool():
            PA("p", o=PA("ab"), items=(PA("a"), PA("ab"))),
            PA("a", n="a", o=PA("q", items=(PA("a"),)), items=(PA("q", items=(PA("a"),)),)),   # nested parents
            PB("p", items=(PA("x", o=PA("a", items=(PC("a"),))),)),
-           PA("ab", n="ab"), PC("ab")]
+           PA("ab", n="ab"), PC("ab"), PA("a b"), PA("a  b"), PC("a  b")]
     return out
 
 
@@ -99,7 +99,7 @@ def _skey(n):
 
 
 # ---- pattern space -------------------------------------------------------------------------------------
-RES = ["a", "a$", "b|ab", ".*", ""]
+RES = ["a", "a$", "b|ab", ".*", "", "a b", "a  b$"]
 CLASSES = ["*", ("PA",), ("PB",), ("PC",), ("PA", "PC"), ("PC", "PB")]
 
 
@@ -212,6 +212,8 @@ def core(tier):
         T(("PB",), ("o", None, None)), T(("PA", "PC"), ("s", ("re", "a$"), "v")), T("*", ("items", seq([(T("*"), None)], ("tail", None)), None)),
         T(("PA",), ("o", None, "c"), ("items", seq([(("var", "c"), None)], ("tail", None)), None)), T("*"),
         T(("PA",), ("n", None, None), ("s", None, "q")), T(("PA",), ("items", seq([], ("tail", "rest")), None)),
+        # texts that differ only by blanks inside a quoted regex (must stay different patterns whatever the cache does)
+        T("*", ("s", ("re", "a b"), None)), T("*", ("s", ("re", "a  b"), None)), T("*", ("s", ("re", "a b$"), "v")), T("*", ("s", ("re", "a  b$"), "v")),
     ]
     if tier == "thorough":
         c += [T(cls, fs) for cls in (("PA",), "*") for fs in (prop_specs("s")[:4] + seq_specs(False)[:12])]
@@ -358,7 +360,7 @@ def run_shard(cfg):
             for i, (p, t, m) in enumerate(comp):
                 if m is not None:
                     judge(rec, p, f"{t}   [compilation {i + 1} of {[x[1] for x in comp]}; cache kept]", m, nodes, tag="history")
-    ms = cs[:8] if tier == "quick" else cs[:12]
+    ms = (cs[:6] + cs[12:14]) if tier == "quick" else cs[:14]
     for ln in (1, 2, 3):
         for combo in itertools.permutations(range(len(ms)), ln):
             mine = jdx % cfg["of"] == cfg["k"]
